@@ -34,6 +34,19 @@ CLAIMED = {
              "(V, m, mol, S, Sv, W), thorough covers all 31. CPython float arithmetic is executed "
              "concretely per path.",
         ref="3 C09"),
+    "C07": dict(
+        text="index_of (3 modes), range_indices (2 modes), position_at/tick_at/axis and the "
+             "round trip of the real Sampled/Range/SetDimension classes equal the set-builder "
+             "definitions (last sample <= p, last < p, first >= p, IndexError iff none; index "
+             "range = samples inside the interval, None iff empty) for EVERY position/offset/tick "
+             "on the dyadic lattice k/16, |x| <= 32, intervals 2^-3..2^3, tick vectors of length "
+             "1-3 (quick) / 1-5 (thorough) incl. repeats, 0-4 labels. z3 decides each path.",
+        note="Floats are modelled by exact rationals (Q) on a lattice where IEEE evaluation is exact "
+             "(argued lemma in DESIGN.md, exercised on 2000 points per run, and every counterexample "
+             "is replayed with real floats on a real file); NumPy calls are served by a validated "
+             "pure-Python shim. Outside: non-dyadic intervals, |x| > 32, positions inside the "
+             "isclose tolerance band, NaN/inf, non-positive sampling intervals.",
+        ref="3 C07"),
 }
 
 NOT_APPLICABLE = {
